@@ -34,7 +34,7 @@ const FAILS: &[(&str, &str)] = &[("1 0 /", "/"), ("\"boom\" error", "error"), ("
 
 fn inject(r: &mut crate::rng::Rng, prog: &str) -> (String, Option<&'static str>) {
     let toks: Vec<&str> = prog.split(' ').filter(|t| !t.is_empty()).collect();
-    match r.below(6) {
+    match r.below(8) {
         0 => (prog.to_string(), None),
         1 => { // unknown word somewhere
             let i = r.below(toks.len() + 1);
@@ -54,6 +54,14 @@ fn inject(r: &mut crate::rng::Rng, prog: &str) -> (String, Option<&'static str>)
         4 => { // inside nested control flow
             let f = r.pick(FAILS);
             (format!("{} true if 1 0 do {} loop then", prog, f.0), Some(f.1))
+        }
+        6 => { // a run-time failure inside a meta block: reported while the source is still being built
+            let f = r.pick(FAILS);
+            match r.below(3) {
+                0 => (format!("{} #( {} #)", prog, f.0), Some(f.1)),
+                1 => (format!("{} : mboom {} ; #( mboom #)", prog, f.0), Some(f.1)),
+                _ => (format!("{} #( 2 0 do {} loop #)", prog, f.0), Some(f.1)),
+            }
         }
         _ => { // unbalanced closer
             let c = *r.pick(&["then", "loop", "repeat", ";", "endcase", "]"]);
@@ -90,7 +98,9 @@ pub fn run(ctx: &mut Ctx) {
                 let (p2, marker) = inject(&mut ctx.rng, &prog);
                 // the injected word is the expected culprit only if the program itself runs cleanly
                 let base_ok = { let mut probe = xs.clone(); matches!(crate::guarded(|| probe.eval(&prog)), Some(Ok(()))) };
-                (format!("{}{}", prefix(&mut ctx.rng), p2), if base_ok { marker } else { None })
+                // multi-byte characters on the failing token's own line (the column counts characters, not bytes)
+                let same_line = if ctx.rng.chance(35) { *ctx.rng.pick(&["\"héllo wörld\" drop ", "\"日本\" drop\t", "\"ü\" drop \"€uro\" drop "]) } else { "" };
+                (format!("{}{}{}", prefix(&mut ctx.rng), same_line, p2), if base_ok { marker } else { None })
             };
             let t = match lex_all(&text) { Some(t) => t, None => { ctx.tag("skipped:lex-error"); continue; } };
             let nsrc = xs.verif_dump().sources;
@@ -129,7 +139,8 @@ pub fn run(ctx: &mut Ctx) {
                             if let Xerr::UnknownWord(w) = e {
                                 ctx.check(loc.token.as_str() == w.as_str(), || case.clone(), || format!("token = unknown word {}", w), || loc.token.to_string());
                             }
-                            if let (Some(m), false) = (marker, is_build_err) {
+                            let in_meta = text.contains("#(");
+                            if let (Some(m), true) = (marker, !is_build_err || in_meta) {
                                 if !format!("{:?}", e).contains("limit reached") && same_buf {
                                     ctx.check(loc.token.as_str() == m, || case.clone(), || format!("token = failing word {}", m), || loc.token.to_string());
                                 }
